@@ -117,10 +117,13 @@ func c07TagLocals(c *Ctx, r *Report) {
 		info := f.Pkg.TypesInfo
 		var tagObj types.Object
 		ast.Inspect(f.Decl.Body, func(n ast.Node) bool {
-			if id, ok := n.(*ast.Ident); ok && id.Name == "Tag" {
-				if o := info.Defs[id]; o != nil {
-					if _, isVar := o.(*types.Var); isVar && !o.(*types.Var).IsField() {
-						tagObj = o
+			// the local whose value the definitions of the line receive as their Tag field (whatever it is called)
+			if kv, ok := n.(*ast.KeyValueExpr); ok {
+				if k, ok := kv.Key.(*ast.Ident); ok && k.Name == "Tag" {
+					if fv, isVar := info.Uses[k].(*types.Var); isVar && fv.IsField() {
+						if o, isLocal := identObj(info, kv.Value).(*types.Var); isLocal && !o.IsField() && o.Parent() != o.Pkg().Scope() {
+							tagObj = o
+						}
 					}
 				}
 			}
@@ -128,7 +131,7 @@ func c07TagLocals(c *Ctx, r *Report) {
 		})
 		key := f.Name + "/tag-is-the-text-between-angle-brackets"
 		if tagObj == nil {
-			r.Undecided("C07.c", "R1 MUST-FLOW", key, c.pos(f.Decl.Pos()), "no local named Tag")
+			r.Undecided("C07.c", "R1 MUST-FLOW", key, c.pos(f.Decl.Pos()), "no local is stored as the Tag of the line's definitions")
 			continue
 		}
 		why := "the tag local is never assigned the current token's text"
@@ -648,10 +651,16 @@ func c04NoPrecedenceSentinel(c *Ctx, r *Report, clause string) {
 	if f := c.need(r, clause, "LALR", "LALR1", "ResolveConflict"); f != nil {
 		info := f.Pkg.TypesInfo
 		ast.Inspect(f.Decl.Body, func(n ast.Node) bool {
-			if be, ok := n.(*ast.BinaryExpr); ok && be.Op == token.EQL && fieldNamed(info, be.X, "Prec") {
-				if v, isC := constInt(info, be.Y); isC {
-					note("ResolveConflict's test", v)
-					all = append(all, v)
+			if be, ok := n.(*ast.BinaryExpr); ok && be.Op == token.EQL {
+				fx, cy := be.X, be.Y
+				if !fieldNamed(info, fx, "Prec") {
+					fx, cy = be.Y, be.X
+				}
+				if fieldNamed(info, fx, "Prec") {
+					if v, isC := constInt(info, cy); isC {
+						note("ResolveConflict's test", v)
+						all = append(all, v)
+					}
 				}
 			}
 			return true
